@@ -305,6 +305,25 @@ func TestC16(t *testing.T) {
 				return out
 			}
 			sameBlock, nextBlock, later := pick("inSameBlock"), pick("inNextBlock"), pick("later")
+			// one signature, one transaction: the same signature attached to content that differs in a field the signer
+			// committed to (the entropy nonce, the memo) is NOT the signed transaction and must not take effect either -
+			// "signed once" would otherwise cover as many transactions as there are values of that field
+			{
+				enc := auth.DefaultTxEncoder(app.Codec())
+				alt := ostd
+				alt.Entropy = ostd.Entropy + 1 + int64(rapid.IntRange(0, 1000).Draw(rt, "entropyShift"))
+				if bz, err := enc(alt, 10); err == nil && !bytes.Equal(bz, T) {
+					v := variant{"same-signature-other-entropy", bz}
+					sameBlock, nextBlock, later = append(sameBlock, v), append(nextBlock, v), append(later, v)
+				}
+				alt = ostd
+				alt.Memo = ostd.Memo + "x"
+				if bz, err := enc(alt, 10); err == nil && !bytes.Equal(bz, T) {
+					v := variant{"same-signature-other-memo", bz}
+					nextBlock = append(nextBlock, v)
+				}
+				c.Label("same-signature-on-other-content")
+			}
 			credited := func() sdk.BigInt { return n.Balance(to) }
 			payer := func() sdk.BigInt { return n.Balance(fromAddr) }
 			deliver := func(where string, name string, bz []byte) {
@@ -320,6 +339,9 @@ func TestC16(t *testing.T) {
 					sig := "C16/reencoding/byte-different-encoding-took-effect-again"
 					if name == "identical-bytes" {
 						sig = "C16/identical-bytes/took-effect-again"
+					}
+					if strings.HasPrefix(name, "same-signature-other-") {
+						sig = "C16/" + name + "/one-signature-took-effect-for-other-content"
 					}
 					c.Violation(sig, "resubmission of T as %q in %s returned code %d/%s and the recipient balance went %s -> %s (T itself already took effect)", name, where, r.Code, r.Codespace, before, after)
 				}
